@@ -28,6 +28,14 @@ theorem minv_pushChan' {O log keys org start m} (h : MInv O log keys org start m
   · simp only [hc, if_false]
     exact this
 
+theorem minv_handleContainer {O log keys org start m} (hO : GoodOrders O) (hS : Scn log keys org)
+    (h : MInv O log keys org start m) (cont : List Entry) (hc : ∀ e ∈ cont, e ∈ log) (a b : Nat) :
+    MInv O log keys org start (m.handleContainer O cont a b) := by
+  unfold Mgr.handleContainer
+  split
+  · exact minv_handleSeq hO hS h cont hc a b
+  · exact minv_getDifference hO hS _ m h
+
 /-! ### One item of a channel worker's queue -/
 
 theorem minv_chanItem {O log keys org start} (hO : GoodOrders O) (hS : Scn log keys org) (fuel c : Nat)
@@ -133,8 +141,9 @@ theorem minv_settle {O log keys org start} (hO : GoodOrders O) (hS : Scn log key
       have h2 : MInv O log keys org start { m1 with internal := [] } :=
         ⟨⟨h1.coh.hlog, h1.coh.box, h1.coh.tr, h1.coh.wf, h1.coh.pend, h1.coh.nobox⟩, h1.p0, h1.q0, h1.c0,
           h1.queues, fun cont hc => by simp at hc, h1.startP, h1.startC, h1.parked⟩
-      exact foldl_inv (MInv O log keys org start) (Mgr.applyCombined O) m1.internal (fun cont => ∀ e ∈ cont, e ∈ log)
-        (fun b a hb ha => minv_applyCombined hO hS hb a ha) _ h2 h1.internal
+      exact foldl_inv (MInv O log keys org start) (fun (m : Mgr) cont => m.handleContainer O cont 0 0) m1.internal
+        (fun cont => ∀ e ∈ cont, e ∈ log)
+        (fun b a hb ha => minv_handleContainer hO hS hb a ha 0 0) _ h2 h1.internal
 
 /-! ### Harness actions -/
 
@@ -182,7 +191,7 @@ theorem minv_act {O log keys org start} (hO : GoodOrders O) (hS : Scn log keys o
       rw [← h.coh.hlog]; exact List.mem_of_find?_eq_some hi
     split
     · exact minv_emitted h _
-    · exact minv_applyCombined hO hS (minv_emitted h _) _ hes
+    · exact minv_handleContainer hO hS (minv_emitted h _) _ hes 0 0
   | affected id =>
     simp only [Mgr.act]
     split
@@ -261,6 +270,7 @@ theorem minv_act {O log keys org start} (hO : GoodOrders O) (hS : Scn log keys o
   | failNext k => exact minv_world h _ rfl
   | known c => exact minv_world h _ rfl
   | emitSeq n => exact minv_world h _ rfl
+  | knowUsers ids => exact minv_users h _
   | pushSeq a b ids =>
     simp only [Mgr.act]
     have hes : ∀ e ∈ ids.filterMap (fun i => m.w.log.find? (·.id == i)), e ∈ log := by
@@ -273,7 +283,7 @@ theorem minv_act {O log keys org start} (hO : GoodOrders O) (hS : Scn log keys o
         seqNow := max m.w.seqNow b } } := minv_world h _ rfl
     split
     · exact hw
-    · exact minv_handleSeq hO hS hw _ hes a b
+    · exact minv_handleContainer hO hS hw _ hes a b
 
 theorem minv_runActions {O log keys org start} (hO : GoodOrders O) (hS : Scn log keys org)
     (acts : List Action) (m : Mgr) (h : MInv O log keys org start m) :
